@@ -7,6 +7,7 @@
    writer (robfig/gettext/po), the locale fall-back computation
    (golang.org/x/text/language), and the JavaScript backend (node). *)
 From Coq Require Import Permutation.
+From Soy Require Import Proofs.MsgIdProofs.
 From Soy Require Import Model.Bytes Model.Outcome Model.Num Model.Values Model.Ast Model.MsgId
   Model.Escape Model.Interp Model.MsgParts Spec.MsgCat Proofs.MsgPartsProofs Proofs.InterpRelProofs Proofs.MsgCatProofs.
 Open Scope N_scope.
@@ -206,6 +207,17 @@ Theorem C11_identity_catalogue_errors : forall cf plural_index bd,
   concat_b (rr_writes (render cf f name did data None None fid)).
 Proof. exact render_error_agrees. Qed.
 Print Assumptions C11_identity_catalogue_errors.
+
+(* [coherent] follows from C10's naming theorem once String() is injective on the
+   message's placeholder nodes (C17's print_injective: an explicit hypothesis) *)
+Theorem C11_coherent_of_naming : forall order mbody es nm (phs : list (N * bstr * bstr * node)),
+  is_perm order -> msg_entries mbody = Ok es -> msg_names order mbody = Ok nm ->
+  (forall p base str n, In (p, base, str, n) phs -> In (base, str) es) ->
+  (forall p base str n p' base' str' n',
+      In (p, base, str, n) phs -> In (p', base', str', n') phs -> str = str' -> n = n') ->
+  coherent (map (ph_of nm) phs).
+Proof. exact coherent_of_naming. Qed.
+Print Assumptions C11_coherent_of_naming.
 
 (* the tree walker itself respects the equivalence (one unfolding, any related walkers) *)
 Theorem C11_walker_parametric : forall cf (okm : N -> list node -> Prop),
